@@ -1065,7 +1065,7 @@ class Interp:
                     continue
                 items = self.literal_items(it)
                 if items is None or len(items) > 64:
-                    yield Opaque('comp@%d' % node.lineno, (), 'list'), s
+                    yield self._symbolic_comp(node, gen, it, s), s
                     continue
                 saved = dict(s.env)
                 for vals, s2 in self._comp_items(node, gen, items, 0, s):
@@ -1077,6 +1077,28 @@ class Interp:
                     yield Tup(tuple(vals), 'list'), s3
             return
         yield Opaque('comp@%d' % node.lineno, (), 'list'), st
+
+    def _symbolic_comp(self, node, gen, it, st):
+        """A comprehension over a non-literal space: opaque list that records the iterated value,
+        the element term and the filter for a symbolic element (side effects of evaluating them
+        once are discarded; comprehensions in this code base are pure)."""
+        try:
+            var = Opaque('compvar@%d' % node.lineno, (it,))
+            elt_v = cond_v = None
+            for s1 in self.assign(gen.target, var, st):
+                if gen.ifs:
+                    test = gen.ifs[0] if len(gen.ifs) == 1 else ast.BoolOp(op=ast.And(),
+                                                                           values=gen.ifs)
+                    vals = list(self.ev(test, s1))
+                    if len(vals) == 1 and not vals[0][1].raised:
+                        cond_v = vals[0][0]
+                vals = list(self.ev(node.elt, s1))
+                if len(vals) == 1 and not vals[0][1].raised:
+                    elt_v = vals[0][0]
+                break
+            return Opaque('comp@%d' % node.lineno, (it, elt_v, cond_v), 'list')
+        except AnalysisError:
+            return Opaque('comp@%d' % node.lineno, (), 'list')
 
     def _comp_items(self, node, gen, items, idx, st):
         if idx >= len(items):
